@@ -71,7 +71,7 @@ def gen_case(rng, tier):
             'expanded': (emit.emit(doc, style) + alias_expanded) if alias_expanded else None,
             'merged': rng.random() < 0.3 and not alias_text,
             # the tree has been evaluated in place before it is copied (whatever evaluation leaves on the nodes must be copyable too)
-            'used': rng.random() < 0.25, 'api_reserved': rng.choice([None] * 7 + ['items', 'keys', 'update'])}
+            'used': rng.random() < 0.25, 'stream': rng.choice([0] * 18 + [1, 2]), 'api_reserved': rng.choice([None] * 7 + ['items', 'keys', 'update'])}
 
 
 def _despecial(doc):
@@ -102,6 +102,27 @@ def parse(case):
 
 def _parse(case):
     from awesomeyaml.builder import Builder
+    if case.get('stream'):
+        # a tree between Builder.preprocess() and the merge: the nested include has become a node holding the included documents,
+        # still to be merged with each other and with what is around them
+        import os
+        import shutil
+        import tempfile
+        root = os.path.join(tempfile.gettempdir(), f'verif_c19_{os.getpid()}')         # (the same name for every parse of this process: file names are part of the trees)
+        shutil.rmtree(root, ignore_errors=True)
+        os.makedirs(root)
+        try:
+            with open(os.path.join(root, 'inc.yaml'), 'w') as f:
+                f.write('p: 1\nq: [1, 2]\n---\nq: !append [3]\nr: {s: 1}\n' if case['stream'] == 2 else 'p: 1\nq: [1, 2]\n')
+            main = os.path.join(root, 'main.yaml')
+            with open(main, 'w') as f:
+                f.write('k: !include inc.yaml\nother: {x: 1}\nkk: {deep: !include [inc.yaml, inc.yaml]}\n')
+            b = Builder()
+            b.add_source(main, safe=case['safe'])
+            b.preprocess()
+            return b.stages[0] if len(b.stages) == 1 else None
+        finally:
+            shutil.rmtree(root, ignore_errors=True)
     b = Builder()
     b.add_source(case['text'], raw_yaml=True, safe=case['safe'], filename=case['filename'])
     if len(b.stages) != 1:
@@ -253,6 +274,14 @@ def behaviour(case, tree, kinds=True):
     return ('ok', mv, util.typed(_plain(e[1]), other=_res_tag), calls)
 
 
+KNOWN_STREAM = 'include-stream-copied-apart-from-its-tree'
+
+
+def _holds_stream(node):
+    from awesomeyaml.nodes.stream import StreamNode
+    return isinstance(node, StreamNode) or any(isinstance(n, StreamNode) for n in node.ayns.nodes(include_self=False, allow_duplicates=True))
+
+
 def _plain(v):
     if isinstance(v, dict):
         return {k: _plain(x) for k, x in v.items()}
@@ -267,7 +296,7 @@ def run(case):
         return {'status': 'skip', 'feats': ['unparsable']}
     O1 = o1[1]
     O2 = parse(case)
-    feats = ['method_' + case['method'], 'buildable' if case['buildable'] else 'static', 'safe_src' if case['safe'] else 'unsafe_src'] + (['merged_tree'] if case.get('merged') else []) + (['evaluated_in_place_before'] if case.get('used') else [])
+    feats = ['method_' + case['method'], 'buildable' if case['buildable'] else 'static', 'safe_src' if case['safe'] else 'unsafe_src'] + (['merged_tree'] if case.get('merged') else []) + (['evaluated_in_place_before'] if case.get('used') else []) + (['preprocessed_tree_with_include_streams'] if case.get('stream') else [])
     if tv(O1) != tv(O2):
         return {'status': 'inconclusive', 'why': 'two parses of the same text differ: the round-trip oracle is unusable for this case'}
     vio = []
@@ -299,7 +328,11 @@ def run(case):
                 k = int(case['muts'][0]['sel'] * len(inner1))
                 ci = lib.outcome(do_copy, inner1[k], case['method'], amb)
                 feats.append('inner_container_copied')
-                if ci[0] == 'err':
+                if ci[0] == 'err' and case.get('stream') and _holds_stream(inner1[k]) and isinstance(ci[1], AttributeError):
+                    # recorded finding (DESIGN 7.3): the node an include has become keeps its sub-builder, and through it the whole tree it was
+                    # cut out of; copied on its own it meets itself half-built
+                    vio.append({'mech': KNOWN_STREAM, 'what': f'{case["method"]} of a subtree holding an include stream, copied apart from its tree, raises {type(ci[1]).__name__}: {ci[1]}'})
+                elif ci[0] == 'err':
                     vio.append({'mech': 'copy-raises', 'what': f'{case["method"]} of an inner container raises {type(ci[1]).__name__}: {ci[1]}; {txt}'})
                 elif tv(ci[1]) != tv(inner2[k]):
                     vio.append({'mech': 'inner-copy-differs', 'what': f'copy of inner container #{k} ({type(inner1[k]).__name__}) differs from the original: {_diff(tv(ci[1]), tv(inner2[k]))}; {txt}'})
